@@ -46,6 +46,30 @@ func (th *Thread) unop(fr *frame, ins *ssa.UnOp, x Value) Value {
 	panic(unsupported{fmt.Sprintf("unop %v on %T", ins.Op, x)})
 }
 
+// force turns a finite-alphabet string into a concrete one (forking).
+func (th *Thread) force(v Value) Value {
+	switch u := v.(type) {
+	case UStr:
+		k := th.p.concretizeN(u.Sel, len(u.Alt))
+		th.p.w.res.Intrinsics["union string concretised"]++
+		return Str{S: u.Alt[k]}
+	case Iface:
+		if _, ok := u.V.(UStr); ok {
+			return Iface{T: u.T, V: th.force(u.V)}
+		}
+	}
+	return v
+}
+
+func (th *Thread) forceAll(vs []Value) {
+	for i, v := range vs {
+		switch v.(type) {
+		case UStr, Iface:
+			vs[i] = th.force(v)
+		}
+	}
+}
+
 func (th *Thread) binop(op token.Token, t types.Type, x, y Value) Value {
 	switch op {
 	case token.EQL:
@@ -53,6 +77,7 @@ func (th *Thread) binop(op token.Token, t types.Type, x, y Value) Value {
 	case token.NEQ:
 		return Not(eqTerm(x, y))
 	}
+	x, y = th.force(x), th.force(y)
 	switch xv := x.(type) {
 	case *Term:
 		yv := y.(*Term)
@@ -227,6 +252,12 @@ func strLess(a, b Str, orEq bool) *Term {
 
 func (th *Thread) conv(dst, src types.Type, x Value) Value {
 	ud, us := dst.Underlying(), src.Underlying()
+	if _, ok := x.(UStr); ok {
+		if isString(ud) {
+			return x // string -> named string type: stays symbolic
+		}
+		x = th.force(x)
+	}
 	switch ud := ud.(type) {
 	case *types.Basic:
 		if ud.Kind() == types.UnsafePointer {
@@ -470,6 +501,7 @@ type strIter struct {
 }
 
 func (th *Thread) rangeIter(x Value, t types.Type) Value {
+	x = th.force(x)
 	switch x := x.(type) {
 	case *Map:
 		return &mapIter{m: x}
@@ -655,6 +687,16 @@ func (th *Thread) mapDelete(m *Map, k Value) {
 // ---- builtins ----
 
 func (th *Thread) callBuiltin(fr *frame, b *ssa.Builtin, c *ssa.CallCommon, args []Value) Value {
+	if b.Name() == "len" {
+		if u, ok := args[0].(UStr); ok {
+			res := BV(64, uint64(len(u.Alt[len(u.Alt)-1])))
+			for i := len(u.Alt) - 2; i >= 0; i-- {
+				res = Ite(Eq(u.Sel, BV(8, uint64(i))), BV(64, uint64(len(u.Alt[i]))), res)
+			}
+			return res
+		}
+	}
+	th.forceAll(args)
 	switch b.Name() {
 	case "append":
 		if len(args) == 1 {
